@@ -68,6 +68,47 @@ pub fn to_standard_form(problem: LinearModel) -> Result<StandardLinearModel, Sol
             got: invalid_variables,
         });
     }
+    // the answer is mapped back to the model's variables by name: a variable
+    // named like a slack, surplus or artificial column, or like one half of the
+    // split `x = $px - $mx` of a free variable of the model, would be lost or
+    // merged there
+    let names: std::collections::HashSet<&String> = variables.iter().collect();
+    let reserved = variables
+        .iter()
+        .find(|name| {
+            ["$sl_", "$su_", "$a_"]
+                .iter()
+                .any(|prefix| name.starts_with(prefix))
+        })
+        .cloned()
+        .or_else(|| {
+            variables
+                .iter()
+                .filter(|name| {
+                    matches!(
+                        domain.get(*name).map(|variable| variable.get_type()),
+                        Some(VariableType::Real(_, _))
+                    )
+                })
+                .flat_map(|name| [format!("$p{}", name), format!("$m{}", name)])
+                .find(|half| names.contains(half))
+        })
+        // two variables named like the two halves of one split
+        .or_else(|| {
+            variables
+                .iter()
+                .find(|name| {
+                    name.strip_prefix("$m")
+                        .is_some_and(|rest| names.contains(&format!("$p{}", rest)))
+                })
+                .cloned()
+        });
+    if let Some(name) = reserved {
+        return Err(SolverError::Other(format!(
+            "the variable name \"{}\" is reserved for the columns of the standard form",
+            name
+        )));
+    }
     //add constraints for variables that have bounds
     for (i, variable) in variables.iter().enumerate() {
         let domain_type = domain.get(variable).unwrap().get_type();
